@@ -99,6 +99,7 @@ func registry() []PropSpec {
 				{Pkg: pkgRefServer, Func: "H17c_q", Unwind: 10, Note: "rawResponseWriter: every sequence of <=4 operations from {Write, WriteHeader, Flush, setRawResponse}"},
 				{Pkg: pkgRefServer, Func: "H17d_q", Unwind: 10, Note: "rawResponseWriter.finish: status unset/201/503, 2 raw header values, 1 trailer, unary identity body of <=2 symbolic bytes, a handler-set header and a handler write that must not survive"},
 				{Pkg: pkgInternal, Func: "H17a_q", Unwind: 12, UnwindFor: map[string]int{"h17a": 44}, Note: "WriteRawStreamContents/WriteRawMessageContents, identity compression: <=2 items, flags 0..300, explicit length any uint32 or computed, payload <=2 symbolic bytes or absent; destination is a recording WriteCloser"},
+				{Pkg: pkgInternal, Func: "H17e_q", Unwind: 12, UnwindFor: map[string]int{"H17e_q": 44}, Note: "WriteRawMessageContents with per-item compression: compression 0..7 (unspecified, identity, 5 algorithms, unknown), data absent / binary / binary message / text, payload of 0..2 symbolic bytes; compressors are a framing model symbolically (header byte, payload, trailer byte on Close) and the real ones natively"},
 			},
 			Stubs: []string{"destination writer = recording stub with a Close method", "bytes.Buffer modelled on its fields"},
 			Out:   []string{"non-identity compressions (third-party code; C20)", "rawRequestSender.RoundTrip (net/http, io.Pipe, goroutines), real sockets"},
@@ -124,7 +125,7 @@ func registry() []PropSpec {
 		{
 			ID: "C02",
 			Quick: []HarnessSpec{
-				{Pkg: pkgCC, Func: "H02a_q", Unwind: 8, Note: "populateExpectedResponse: stream type 0..6 (incl. unspecified/out of range), 0..3 request messages of one of 4 types or undecodable, response definition present or not, 0..3 response_data items, error present or not, unary response nothing/data/error, expected response preset or not"},
+				{Pkg: pkgCC, Func: "H02a_q", Unwind: 8, Note: "populateExpectedResponse: response definition carried by request message 0, 1 or 2 (only the first one counts, as in the reference servers); stream type 0..6 (incl. unspecified/out of range), 0..3 request messages of one of 4 types or undecodable, response definition present or not, 0..3 response_data items, error present or not, unary response nothing/data/error, expected response preset or not"},
 			},
 			Stubs: []string{"anypb UnmarshalNew / New are contract stubs (table lookup); natively real Any values are used"},
 			Out:   []string{"agreement of the derived expectation with the reference peers (needs the whole RPC stack: same reason as C01)", "YAML/JSON parsing of suites"},
